@@ -141,6 +141,17 @@ def install(R):
     R.methods[("RandomState", "permutation")] = lambda E, recv, args, kwargs, node: _permutation(
         E, *args, _rng=recv.fields["$rng"], _old=lambda E_, *a_, **k_: old_rs_perm(E_, recv, a_, k_, node), **kwargs)
 
+    @reg("numpy.argmin")
+    def _argmin(E, a, axis=None, **kw):
+        """ASSUMED: numpy.argmin(m, axis=1) returns one column position per row (that it is a smallest entry is not modelled)"""
+        if not (isinstance(a, NdArr) and a.ndim == 2 and axis == 1 and not kw):
+            raise Unsupported("argmin(%r, axis=%r)" % (a, axis))
+        E.safety("argmin-of-empty", z(a.shape[1]) >= 1, None, "ValueError")
+        out = NdArr.fresh("argmin", (a.shape[0],), "int")
+        i = z3.Int(fresh_name("ai"))
+        E.assume(z3.ForAll([i], z3.And(out.get(i) >= 0, out.get(i) < z(a.shape[1])), patterns=[out.get(i)]))
+        return out
+
     @reg("sklearn.metrics.pairwise.euclidean_distances")
     def _eucl(E, X, Y=None, Y_norm_squared=None, squared=False, X_norm_squared=None):
         """ASSUMED: a (rows of X) x (rows of Y) matrix of non-negative numbers; ValueError when the dimensions differ"""
